@@ -16,6 +16,7 @@ Owned nondeterminism / environment:
 """
 from __future__ import annotations
 
+import copy
 import queue
 import urllib.parse
 import uuid
@@ -191,7 +192,7 @@ class Universe:
         self.sm.flow_context.from_proxy_queue.put(("request", f.get_state()), True)
         self._pump()
         state = self._take_callback()
-        back = HTTPFlow.from_state(state)
+        back = HTTPFlow.from_state(copy.deepcopy(state))    # from_state consumes the dict it is given
         try:
             upstream = llsd.parse_xml(back.request.content)
         except Exception as e:  # pragma: no cover
@@ -204,7 +205,7 @@ class Universe:
 
     def seed_response(self, request_state: Dict, grant: Dict[str, str]) -> Dict[str, Any]:
         """Simulator answers 200 with ``grant``. Returns the body the viewer would receive."""
-        f = HTTPFlow.from_state(request_state)
+        f = HTTPFlow.from_state(copy.deepcopy(request_state))
         f.response = Response.make(200, llsd.format_xml(dict(grant)), {"Content-Type": "application/llsd+xml"})
         self.sm.flow_context.from_proxy_queue.put(("response", f.get_state()), True)
         self._pump()
